@@ -70,6 +70,10 @@ class Scenario(worlds.World):
         self.reg = worlds.fresh_registry(self.gen)
         self.ok, self.bad, self.probe, self.request, self.garbage = _msgs(self.gen)
         self.badcrc = self.probe[:-1] + bytes([self.probe[-1] ^ 1])
+        if self.gen == 4:
+            self.poison = framing.at4_frame(0xB0, 0x80, 2, 0x2B, bytes([0x80, 0x64, 0x00, 0x00, 0xFF, 0x00]))
+        else:
+            self.poison = framing.at5_frame(0xB0, 0x80, 2, 0xC0, bytes([0x21, 0, 0, 0, 0, 8, 0, 1, 0x80, 0x80, 0x96, 0x80, 0x02, 0xE7, 0, 0]))
         self.trunc = self.probe[:len(self.probe) - 3]
         self.sock = S.AirTouchSocket(self.loop, "console", 9000 + self.gen, self.reg)
         self.delivered = 0
@@ -115,7 +119,7 @@ class Scenario(worlds.World):
             acts += [("accept",), ("refuse",)]
         live = self.net.live()
         if live:
-            acts += [("eof",), ("reset",), ("linkerr",), ("garbage",), ("badcrc",), ("trunc_eof",), ("frame",)]
+            acts += [("eof",), ("reset",), ("linkerr",), ("garbage",), ("badcrc",), ("poison",), ("trunc_eof",), ("frame",)]
             if live[-1].fail_after is None:
                 acts.append(("failw",))
         if self.nsend < self.max_send:
@@ -147,6 +151,10 @@ class Scenario(worlds.World):
             self.net.live()[-1].peer_send(self.garbage)
         elif op == "badcrc":
             self.net.live()[-1].peer_send(self.badcrc)
+        elif op == "poison":
+            # well-formed frame, good CRC, but a field value the decoder's enum does not know (ValueError,
+            # not DecodeError): "undecodable input"
+            self.net.live()[-1].peer_send(self.poison)
         elif op == "trunc_eof":
             t = self.net.live()[-1]
             t.peer_send(self.trunc)
